@@ -16,42 +16,96 @@ P = {'id': 'C10',
               'valvec32_push_capacity',
               'fixed_refines_bounded_deque',
               'fixed_refuses_when_full',
-              'fixed_clear_drops_each_once'],
- 'trusted': ['modelled (M+S), memory = map slot -> option element (None = uninitialised / moved out; reading, moving out or dropping a None slot is the '
-             'outcome UB): src/containers/specialized/circular_queue.rs AutoGrowCircularQueue (ensure_power_of_two, with_capacity, reserve, grow_to incl. '
-             'in-place realloc vs. linearising two-part copy, push_back + slow path, pop_front, front, back, clear, push_bulk, pop_bulk, Clone, Drop) and '
-             'FixedCircularQueue<T,N> (push_back, pop_front, front, back, clear, Drop); src/containers/fast_vec.rs FastVec (with_capacity, reserve, '
-             'ensure_capacity, realloc growth max(new_cap, 2*cap), push, pop, insert, remove, resize, clear, shrink_to_fit, extend, Clone, Drop - the paths '
-             'taken by element types that need Drop); src/containers/specialized/valvec32.rs capacity arithmetic only (larger_capacity, '
-             'calculate_new_capacity, reserve, push_slow)',
-             'spec-only cells (shadow Vec/VecDeque oracle with per-id live-instance counting, no mechanism model): FastVec<u64>/FastVec<u8> (the SIMD paths '
-             'of insert/remove/resize/extend, fill_range_fast, extend_from_slice_fast, PartialEq), ValVec32<El>/ValVec32<u64> (push, pop, set, get, clear, '
-             'extend_from_slice(_copy), push_n_copy, reserve, Clone), memory::cache::CacheAlignedVec<El>/<u8>, cache_layout::CacheAlignedVec<u64>, '
-             'BumpVec<El>, MmapVec<u64> (push, pop, resize, truncate, clear, extend, push_bulk_simd, pop_bulk_simd, fill_range_simd, copy_from_simd, '
-             'reserve, shrink_to_fit), SortableStrVec (push, get, iter, clear, Clone, four sorts + sorted views), FixedLenStrVec<4/8/16>, '
-             'ZoSortedStrVec (three constructors), BitPackedStringVec32/64, AdvancedStringVec levels 0..3',
+              'fixed_clear_drops_each_once',
+              'valvec32_refines_list',
+              'valvec32_exactly_once',
+              'valvec32_clone_same_sequence',
+              'valvec32_clear_drops_each_once',
+              'valvec32_capacity_agrees',
+              'valvec32_set_leak_refuted',
+              'valvec32_extend_truncation_refuted',
+              'strvec_consts_ok',
+              'strvec_entry_roundtrip',
+              'strvec_refines_spec',
+              'strvec_get_pushes',
+              'strvec_push_refused_iff',
+              'strvec_sort_is_sorted_perm',
+              'strvec_sort_by_is_sorted_perm',
+              'strvec_sort_by_length_is_sorted_perm',
+              'strvec_radix_sort_is_sorted_perm',
+              'strvec_long_string_refuted',
+              'fixedlen_refines_list',
+              'fixedlen_get_pushes',
+              'fixedlen_push_refused_iff',
+              'fastvec_copy_refines_list',
+              'fastvec_bulk_equals_scalar',
+              'fastvec_copy_eq_decides',
+              'fastvec_copy_from_refuted'],
+ 'consts': True,
+ 'trusted': ['modelled (M+S), memory = map slot -> option element (None = uninitialised / moved out; reading, moving out or dropping a None slot is '
+             'the outcome UB): src/containers/specialized/circular_queue.rs AutoGrowCircularQueue (ensure_power_of_two, with_capacity, reserve, '
+             'grow_to incl. in-place realloc vs. linearising two-part copy, push_back + slow path, pop_front, front, back, clear, push_bulk, '
+             'pop_bulk, Clone, Drop) and FixedCircularQueue<T,N> (push_back, pop_front, front, back, clear, Drop); src/containers/fast_vec.rs '
+             'FastVec (with_capacity, reserve, ensure_capacity, realloc growth max(new_cap, 2*cap), push, pop, insert, remove, resize, clear, '
+             'shrink_to_fit, extend, Clone, Drop - the paths taken by element types that need Drop); src/containers/specialized/valvec32.rs ValVec32 '
+             "at element level with allocation-checked slot accesses (new, with_capacity with the allocator's usable size as an input, "
+             'larger_capacity / calculate_new_capacity / reserve / grow_to, push / push_panic / push_slow, pop, get, set, clear, extend_from_slice, '
+             'extend_from_slice_copy, push_n_copy incl. the doubling copy, Clone, Drop); src/containers/specialized/sortable_str_vec.rs '
+             'SortableStrVec (CompactEntry packing and accessors with the field widths regenerated from the source by the constant extractor, '
+             'push_str / push, get / get_by_id, len, iter, clear, Clone, sort_lexicographic / sort (debug-assertions path), sort_by, sort_by_length, radix_sort (MSD radix; its counting-sort loop modelled by its result), '
+             'get_sorted, iter_sorted; slice::sort_unstable_by is a parameter); src/containers/specialized/fixed_len_str_vec.rs FixedLenStrVec<N> '
+             '(push with its three refusals, 24+8-bit index packing, get with str::from_utf8, get_bytes, len, find_exact, count_prefix - the code '
+             'compiled with the default feature simd); src/containers/fast_vec.rs the paths taken by Copy element types (is_simd_beneficial '
+             'thresholds, temporary-buffer insert/remove, fast_fill resize, bulk extend, extend_from_slice_fast, fill_range_fast, '
+             'copy_from_slice_fast, ensure_capacity, PartialEq; the SIMD kernels fast_copy / fast_fill / fast_compare are parameters with their '
+             'contract as hypotheses)',
+             'spec-only cells (shadow Vec/VecDeque oracle with per-id live-instance counting, no mechanism model): '
+             'memory::cache::CacheAlignedVec<El>/<u8>, cache_layout::CacheAlignedVec<u64>, BumpVec<El>, MmapVec<u64> (push, pop, resize, truncate, '
+             'clear, extend, push_bulk_simd, pop_bulk_simd, fill_range_simd, copy_from_simd, reserve, shrink_to_fit), ZoSortedStrVec (three '
+             'constructors), BitPackedStringVec32/64, AdvancedStringVec levels 0..3; oracle-only inside modelled cells: SortableStrVec::binary_search, '
+             'the u32::MAX probe of ValVec32 on zero-sized elements, the 2^24-byte arena probe of FixedLenStrVec, the child-process probe of the '
+             'FastVec operations that aborted the process',
              'not covered: src/containers/specialized/circular_queue_ultrafast.rs is not part of the crate (no `mod` declaration; it uses '
-             'std::intrinsics) and cannot be executed; zero-sized and over-aligned element types; allocation failure paths; the memory safety of the raw '
-             'pointer accesses as such (the index arithmetic is modelled, the dereference is not); thread-safety of FixedCircularQueue atomics',
+             'std::intrinsics) and cannot be executed; zero-sized and over-aligned element types; allocation failure paths; the memory safety of the '
+             'raw pointer accesses as such (the index arithmetic is modelled, the dereference is not); thread-safety of FixedCircularQueue atomics',
              'the element type of the oracle owns no heap memory (a double drop must stay observable instead of aborting the process): it counts '
-             'constructions, clones and drops per id'],
- 'assumptions': ['usize is 64 bits; no container ever holds more than 2^61 elements (the history theorems state this bound; allocation would fail long before)',
+             'constructions, clones and drops per id',
+             'constant extractor tools/extract_consts.py (tools/consts_spec.json -> coq/gen/ConstsC10.v): CompactEntry field widths, masks and '
+             "limits, valvec32::MAX_CAPACITY, the ring's INITIAL_CAPACITY; strvec_consts_ok re-proves on every run what the proofs need of them",
+             'hypotheses of the theorems about external code: slice::sort_unstable_by returns a permutation of its input that is sorted whenever the '
+             'comparator is a total preorder (inhabited by insertion sort, which is what the model runs); str::from_utf8 accepts well-formed UTF-8 '
+             '(modelled by an RFC 3629 validator); the SIMD kernels copy / fill / compare exactly (property C14); malloc_usable_size reports at '
+             'least the requested size'],
+ 'assumptions': ['usize is 64 bits; the ring theorems bound the history at 2^61 elements (allocation would fail long before); the ValVec32, '
+                 'string-vector and FastVec theorems need no size bound (the u32 / 20-bit / 24-bit / 40-bit limits are part of the model and '
+                 'refusals are part of the specification)',
                  'realloc/malloc succeed and preserve contents (allocator is not modelled)',
-                 'agreement of model and code (return values, destroyed elements per operation as a multiset, len, capacity, head and tail index after every '
-                 'operation) is established on the generated and enumerated histories only'],
- 'level_text': 'Machine-checked Coq theorems about Gallina models of AutoGrowCircularQueue, FixedCircularQueue and FastVec in which memory is a map from '
-               'slots to initialised/uninitialised: for every element type, every initial capacity and every operation history the ring (power-of-two mask, '
-               'growth by in-place realloc or linearising copy while wrapped, bulk operations split at the wrap point) returns exactly what a deque returns '
-               'and holds its sequence, never reads or drops an uninitialised slot, clone keeps the sequence, and over a history plus Drop every element '
-               'handed in is handed back or destroyed exactly once with no initialised slot left in the freed buffer; the fixed queue is a deque bounded by N '
-               'that refuses the push beyond N; FastVec is a Vec under push/pop/insert/remove/resize/clear/shrink/extend/reserve/get/clone with exact '
-               'out-of-range refusals; ensure_power_of_two is proved correct up to 2^62; ValVec32 capacity arithmetic stays within u32 and refuses exactly at '
-               'the limit; the pinned tree\'s full-ring defect is a refutation theorem. The models are tied to the code by replaying enumerated and '
-               'generated histories in Coq and comparing every return value, the multiset of destroyed elements, len, capacity and head/tail indices. The '
-               'remaining vectors and all string vectors are decided by a boundary-biased differential oracle only (S-only).',
- 'level_note': 'Trusted: Coq kernel + vm_compute; hand-written models; harness generators, shadow Vec/VecDeque oracle and the drop-counting element type. '
-               'Raw-pointer reads/writes are modelled as slot accesses with an explicit undefined-behaviour outcome.',
- 'technique': 'Coq proof by simulation (abstraction relations R/F/V between buffer+indices and lists) lifted to histories by induction; bit-level proof of '
-              'the power-of-two round-up; model/implementation differential check on operation histories by vm_compute; differential oracle with '
-              'drop-counting elements for all cells',
- 'explanation': 'Unbounded refinement theorems for both circular queues and FastVec; differential oracle for the other containers.'}
+                 'agreement of model and code (return values, destroyed elements per operation as a multiset, len, capacity, head and tail index, '
+                 'strings and sorted views after every operation) is established on the generated and enumerated histories only; the release-mode '
+                 'comparator of SortableStrVec::sort_lexicographic is not compiled into the harness (debug assertions on)'],
+ 'level_text': 'Machine-checked Coq theorems about Gallina models in which memory is a map from slots to initialised/uninitialised. '
+               'AutoGrowCircularQueue, FixedCircularQueue and FastVec: for every element type, capacity and operation history the container returns '
+               'exactly what a deque / bounded deque / Vec returns, never reads or drops an uninitialised slot, clone keeps the sequence, and over a '
+               'history plus Drop every element is handed back or destroyed exactly once. ValVec32 at element level (u32 len/cap, golden-ratio '
+               'growth, every access checked against the allocation): refinement of a Vec bounded by u32::MAX for every history without size bound, '
+               "exactly-once destruction, clone; the pinned tree's set() leak and its `slice.len() as u32` truncation (a heap overflow) are "
+               'refutation theorems. SortableStrVec: the packed (offset, length, seq) entries with the field widths taken from the source read back '
+               'what was packed, get i is the i-th pushed string, a push is refused exactly when a field would overflow, and for every sorting '
+               'routine meeting the contract of sort_unstable_by the sorted view is the (unique) lexicographically sorted permutation of the pushed '
+               'strings while the strings themselves are untouched; likewise sort_by, sort_by_length and radix_sort. FixedLenStrVec<N>: get i is the i-th pushed '
+               'string byte for byte (no padding, NUL kept), refusal exactly beyond N / 255 bytes / 2^24 arena bytes, find_exact and count_prefix '
+               'are first-index and prefix-count. FastVec for Copy types: the SIMD / bulk paths are, for every element size and every kernel meeting '
+               'its contract, the list functions of the scalar path (same value, len, capacity and buffer), fill_range_fast and copy_from_slice_fast '
+               "are splice and assignment, PartialEq decides equality; the pinned tree's process abort in ensure_capacity is a refutation theorem. "
+               'The models are tied to the code by replaying enumerated and generated histories in Coq (about 1500 per quick run) and comparing '
+               'every return value, the multiset of destroyed elements, len, capacity, head/tail indices, strings and sorted views. The remaining '
+               'containers are decided by a boundary-biased differential oracle only (S-only).',
+ 'level_note': 'Trusted: Coq kernel + vm_compute; hand-written models; harness generators, shadow Vec/VecDeque oracle and the drop-counting element '
+               'type. Raw-pointer reads/writes are modelled as slot accesses with an explicit undefined-behaviour outcome.',
+ 'technique': 'Coq proof by simulation (abstraction relations R/F/V/W/SV/FV between buffer or arena + indices and lists) lifted to histories by '
+              'induction; bit-level proofs of the power-of-two round-up and of the packed index entries; sorting abstracted as a parameter with the '
+              'standard contract plus uniqueness of sorted permutations; symbolic refutation for a 2^32-element witness; constants regenerated from '
+              'the source; model/implementation differential check on operation histories by vm_compute; differential oracle with drop-counting '
+              'elements for all cells; child-process probes for operations that may abort',
+ 'explanation': 'Unbounded refinement theorems for both circular queues, FastVec (drop and Copy paths), ValVec32, SortableStrVec and FixedLenStrVec; '
+                'differential oracle for the other containers.'}
